@@ -38,8 +38,9 @@ func c11OnlyLoaded(fv *ssa.FreeVar) bool {
 // c11ErrVar reports whether addr (a *error used inside the transaction finaliser) denotes an
 // error variable that the finaliser shares with the function that created it:
 //
-//   - a free variable of type *error (a captured local / named result, or a pointer bound by
-//     value when the finaliser was created), or
+//   - a free variable of type *error (a captured named result, or a pointer bound by value when
+//     the finaliser was created) – not a captured local that its creator never returns
+//     (c11BoundToResult) –, or
 //   - the content of a write-once cell: a load of a free variable of type **error whose binding,
 //     at every creation site of the closure, is a local cell that is written exactly once – with
 //     the address of a local error variable (or a *error the creator itself captured/received) –
@@ -49,7 +50,7 @@ func c11OnlyLoaded(fv *ssa.FreeVar) bool {
 func c11ErrVar(p *core.Prog, addr ssa.Value) bool {
 	switch x := addr.(type) {
 	case *ssa.FreeVar:
-		return c11IsErrPtr(x.Type())
+		return c11IsErrPtr(x.Type()) && c11BoundToResult(x, 0)
 	case *ssa.UnOp:
 		if x.Op != token.MUL {
 			return false
@@ -88,6 +89,98 @@ func c11ErrVar(p *core.Prog, addr ssa.Value) bool {
 	return false
 }
 
+// c11BoundToResult: the captured *error is not a dead end. Wherever the closure is created, the
+// variable bound to fv is
+//   - a local variable of the creator whose value the creator returns (c11ReachesResult: a named
+//     result, which is what `return` loads after the deferred calls have run) – a deferred
+//     finaliser that writes any other local of its creator writes a variable nobody reads again –,
+//   - or a *error the creator itself captured (same question one level up) or received as a
+//     parameter, or a pointer computed otherwise (not decided here: accepted).
+func c11BoundToResult(fv *ssa.FreeVar, depth int) bool {
+	c := fv.Parent()
+	if c == nil || c.Parent() == nil || depth > 4 {
+		return true
+	}
+	idx := -1
+	for k, y := range c.FreeVars {
+		if y == fv {
+			idx = k
+		}
+	}
+	if idx < 0 {
+		return true
+	}
+	for _, b := range c.Parent().Blocks {
+		for _, in := range b.Instrs {
+			mc, ok := in.(*ssa.MakeClosure)
+			if !ok || mc.Fn != ssa.Value(c) || idx >= len(mc.Bindings) {
+				continue
+			}
+			switch src := core.Strip(mc.Bindings[idx]).(type) {
+			case *ssa.Alloc:
+				if !c11ReachesResult(src) {
+					return false
+				}
+			case *ssa.FreeVar:
+				if !c11BoundToResult(src, depth+1) {
+					return false
+				}
+			}
+		}
+	}
+	return true
+}
+
+// c11ReachesResult: the local variable a of function g is returned by g: some Return of g has a
+// load of a among its results, or a load of a is stored into a local variable that is (named
+// results copied into one another by an inlined helper).
+func c11ReachesResult(a *ssa.Alloc) bool {
+	g := a.Parent()
+	if g == nil {
+		return false
+	}
+	loadOf := func(v ssa.Value) *ssa.Alloc {
+		u, ok := core.Strip(v).(*ssa.UnOp)
+		if !ok || u.Op != token.MUL {
+			return nil
+		}
+		al, _ := u.X.(*ssa.Alloc)
+		return al
+	}
+	reach := map[*ssa.Alloc]bool{}
+	for _, b := range g.Blocks {
+		for _, in := range b.Instrs {
+			if ret, ok := in.(*ssa.Return); ok {
+				for _, r := range ret.Results {
+					if al := loadOf(r); al != nil {
+						reach[al] = true
+					}
+				}
+			}
+		}
+	}
+	for changed := true; changed; {
+		changed = false
+		for _, b := range g.Blocks {
+			for _, in := range b.Instrs {
+				st, ok := in.(*ssa.Store)
+				if !ok {
+					continue
+				}
+				dst, _ := st.Addr.(*ssa.Alloc)
+				if dst == nil || !reach[dst] {
+					continue
+				}
+				if al := loadOf(st.Val); al != nil && !reach[al] {
+					reach[al] = true
+					changed = true
+				}
+			}
+		}
+	}
+	return reach[a]
+}
+
 // c11WriteOnceErrCell: v is a local cell of type **error that is stored exactly once, with the
 // address of an error variable, and is otherwise only loaded or captured by closures that only
 // load it.
@@ -105,7 +198,15 @@ func c11WriteOnceErrCell(v ssa.Value) bool {
 			}
 			stores++
 			switch src := core.Strip(y.Val).(type) {
-			case *ssa.Alloc, *ssa.FreeVar, *ssa.Parameter:
+			case *ssa.Alloc:
+				if !c11IsErrPtr(src.Type()) || !c11ReachesResult(src) {
+					return false
+				}
+			case *ssa.FreeVar:
+				if !c11IsErrPtr(src.Type()) || !c11BoundToResult(src, 0) {
+					return false
+				}
+			case *ssa.Parameter:
 				if !c11IsErrPtr(src.Type()) {
 					return false
 				}
